@@ -644,7 +644,7 @@ class Predicate(metaclass=abc.ABCMeta):
         """
 
         def __init__(self, *predicates: 'dsl.Predicate'):
-            items = {p: {f.origin for f in Column.dissect(p)} for p in predicates}
+            items = {p: {f.origin for f in Element.dissect(p)} for p in predicates}
             if collections.Counter(len(s) == 1 for s in items.values())[True] != len(predicates):
                 raise ValueError('Repeated or non-primitive predicates')
             self._items: typing.Mapping['dsl.Table', 'dsl.Predicate'] = types.MappingProxyType(
@@ -822,7 +822,7 @@ class Comparison(Predicate):
 
     @functools.cached_property
     def factors(self: 'Comparison') -> 'dsl.Predicate.Factors':
-        return Predicate.Factors(self) if len({f.origin for f in Column.dissect(self)}) == 1 else Predicate.Factors()
+        return Predicate.Factors(self) if len({f.origin for f in Element.dissect(self)}) == 1 else Predicate.Factors()
 
 
 class LessThan(Comparison, Infix):
